@@ -13,20 +13,24 @@ import random
 
 from . import solvelib as S
 
-GEN_DEPS = []
+GEN_DEPS = ["Factor.v"]
 TRUSTED = [
     "Model/Eval.v models Point/Expression/Constraint/PSDMatrix.eval and the leaf loops of "
     "_eval_points_and_function_values by hand (tied by the injected-solution stream)",
-    "numpy.linalg.eigh, the clipping of negative eigenvalues and numpy.linalg.qr (pep.py 873-887): 'the leaf "
-    "vectors reproduce the PSD projection of G' is a HYPOTHESIS of C02_gram_reading, measured on every solve of "
-    "both streams (fake: against the exactly known projection, 1e-7; SCS: against an independent eigh, 1e-6)",
+    "numpy.linalg.eigh and numpy.linalg.qr (pep.py, _eval_points_and_function_values): only their SPECIFICATIONS are "
+    "assumed (eigh_spec: V^T V = I, G = V diag(lam) V^T; qr_spec: M = Q R, Q^T Q = I); from them "
+    "C02_factor_reproduces_projection proves that the columns of points_values have the inner products of the PSD "
+    "projection of G, for the plan regenerated from the source (translator/tr_factor.py -> Gen/Factor.v, "
+    "C02_factor_plan_modelled); that numpy meets the specifications is measured on every solve of both streams "
+    "(fake: against the exactly known projection, 1e-7; SCS: against an independent eigh, 1e-6)",
+    "translator/tr_factor.py (grammar in its docstring, fail-closed)",
     "harness/solvelib.py: FakeSolveWrapper (also answers the re-solves of the dimension-reduction heuristics), program "
     "generator, Fraction oracle",
     "C02_primal_le_dual is C01's weak-duality theorem; here it is only measured on the SCS stream",
 ]
 ASSUMES = [
     "solver optimality for C02_objective_is_min (explicit hypothesis: optimal among points differing in tau only)",
-    "P^T P = G+ (numpy eigh/QR) for C02_gram_reading",
+    "numpy.linalg.eigh / qr meet eigh_spec / qr_spec up to rounding (then P^T P = G+ is C02_factor_reproduces_projection)",
 ]
 OWN = {"empty-combination-dimension"}
 
